@@ -693,5 +693,178 @@ theorem opScan_eq (text : List Char) (fuel k : Nat) (h : L text < fuel) :
   simp only [scan, curAt_read, opScan, res_bind, res_rd, resK_mk]
   exact opScanFrom_eq text fuel k h
 
+
+/-! ## regular expressions -/
+
+/-- `scanRegexLoop` on a cursor. -/
+def regC (acc : List Char) (esc : Bool) (c : Cursor) : Option (List Char) × Cursor :=
+  ((scanRegexLoop c.fin c.rest acc esc c.prev c.off).1,
+    { c with rest := (scanRegexLoop c.fin c.rest acc esc c.prev c.off).2.1,
+             prev := (scanRegexLoop c.fin c.rest acc esc c.prev c.off).2.2.1,
+             off := (scanRegexLoop c.fin c.rest acc esc c.prev c.off).2.2.2 })
+
+theorem regC_step (acc : List Char) (esc : Bool) (c : Cursor) :
+    regC acc esc c =
+      if esc = true ∧ c.read.1.1 = eofRune then (none, c.read.2)
+      else if esc = true ∧ c.read.1.1 = '/' then regC (acc ++ ['/']) false c.read.2
+      else
+        if c.read.1.1 = '/' then (some (if esc = true then acc ++ ['\\'] else acc), c.read.2)
+        else if c.read.1.1 = eofRune then (none, c.read.2)
+        else if c.read.1.1 = '\n' then (none, c.read.2)
+        else if c.read.1.1 = '\\' then regC (if esc = true then acc ++ ['\\'] else acc) true c.read.2
+        else regC ((if esc = true then acc ++ ['\\'] else acc) ++ [c.read.1.1]) false c.read.2 := by
+  have e1 : ¬ eofRune = '/' := by decide
+  obtain ⟨prev, rest, fin, off⟩ := c
+  cases rest with
+  | nil => cases esc <;> simp [regC, Cursor.read, scanRegexLoop, e1]
+  | cons x t =>
+    obtain ⟨ch, q⟩ := x
+    simp only [regC, Cursor.read, scanRegexLoop]
+    repeat' split
+    all_goals simp_all
+
+
+/-- What `ScanRegex` makes of `ScanDelimited`'s result. -/
+def delimOpt (r : List Char × Option DErr) : Option (List Char) :=
+  match r.2 with
+  | none => some r.1
+  | some _ => none
+
+theorem regC_esc_passthru (acc : List Char) (c : Cursor) (h1 : c.read.1.1 ≠ eofRune)
+    (h2 : c.read.1.1 ≠ '/') : regC acc true c = regC (acc ++ ['\\']) false c := by
+  rw [regC_step acc true, regC_step (acc ++ ['\\']) false]
+  simp [h1, h2]
+
+theorem delimLoop_eq (text : List Char) (fuel : Nat) : ∀ acc k, Fuel text fuel k →
+    regC acc false (curAt text k) =
+      (delimOpt ((delimLoop '/' regexEscapes true fuel acc).res text k).1,
+        curAt text ((delimLoop '/' regexEscapes true fuel acc).res text k).2) := by
+  induction fuel with
+  | zero => intro acc k h; simp [Fuel] at h
+  | succ fuel ih =>
+    intro acc k h
+    have d1 : ¬ eofRune = '/' := by decide
+    have d2 : ¬ '\n' = eofRune := by decide
+    have d3 : ¬ '\\' = eofRune := by decide
+    have d4 : ¬ '\n' = '/' := by decide
+    have d5 : ¬ '\\' = '/' := by decide
+    rw [regC_step]
+    simp only [curAt_read, delimLoop, res_bind, res_readRune, resK_mk, res_ite, res_pure]
+    by_cases h1 : (streamAt text k).1 = '/'
+    · simp [h1, delimOpt]
+    · by_cases h2 : (streamAt text k).1 = eofRune
+      · simp [h2, d1, delimOpt]
+      · have hf := fuel_step text fuel k h h2
+        have hf2 : Fuel text fuel (k + 1 + 1) := by simp only [Fuel] at hf ⊢; omega
+        by_cases h3 : (streamAt text k).1 = '\n'
+        · simp [h3, d2, d4, delimOpt]
+        · by_cases h4 : (streamAt text k).1 = '\\'
+          · simp only [h1, h2, h3, h4, ↓reduceIte, Bool.false_eq_true, false_and, beq_iff_eq]
+            by_cases g1 : (streamAt text (k + 1)).1 = eofRune
+            · rw [regC_step]
+              simp [g1, curAt_read, delimOpt, d3]
+            · by_cases g2 : (streamAt text (k + 1)).1 = '/'
+              · rw [regC_step]
+                simp only [curAt_read, g1, g2, regexEscapes, ↓reduceIte, and_false, and_self,
+                  Bool.false_eq_true]
+                have e1 : ¬ ('/' : Char) = eofRune := by decide
+                simp only [e1, ↓reduceIte, and_false]
+                exact ih _ _ hf2
+              · rw [regC_esc_passthru _ _ (by simpa [curAt_read] using g1)
+                  (by simpa [curAt_read] using g2)]
+                simp only [g1, g2, regexEscapes, ↓reduceIte, res_bind, res_unreadRune, resK_mk,
+                  Nat.add_sub_cancel, Bool.false_eq_true]
+                exact ih _ _ hf
+          · simp only [h1, h2, h3, h4, ↓reduceIte, Bool.false_eq_true, false_and, beq_iff_eq]
+            exact ih _ _ hf
+
+theorem delimLoop_noBadEscape (text : List Char) (ending : Char) (esc : Char → Option Char) (fuel : Nat) :
+    ∀ acc k, ((delimLoop ending esc true fuel acc).res text k).1.2 ≠ some .badEscape := by
+  induction fuel with
+  | zero => intro acc k; simp [delimLoop, res_pure]
+  | succ fuel ih =>
+    intro acc k
+    simp only [delimLoop, res_bind, res_readRune, resK_mk, res_ite, res_pure]
+    repeat' split
+    all_goals first
+      | exact ih _ _
+      | (rename_i hh; exact absurd trivial hh)
+      | (simp only [res_bind, res_unreadRune, resK_mk]; exact ih _ _)
+      | (simp; done)
+
+theorem opScanRegex_eq (text : List Char) (fuel k : Nat) (h : L text < fuel) :
+    scanRegex (curAt text k) =
+      (((opScanRegex fuel).res text k).1, curAt text ((opScanRegex fuel).res text k).2) := by
+  simp only [scanRegex, curAt_read, curAt_prev, opScanRegex, opScanDelimited, res_bind, res_cur,
+    res_readRune, resK_mk, res_ite, res_pure]
+  by_cases h1 : (streamAt text k).1 = eofRune
+  · have e1 : ¬ eofRune = '/' := by decide
+    simp [h1, e1, resK_mk, res_pure]
+  · by_cases h2 : (streamAt text k).1 = '/'
+    · have hl := delimLoop_eq text fuel [] (k + 1) (fuel_of_abs text fuel _ h)
+      simp only [regC, Prod.mk.injEq] at hl
+      simp only [h1, h2, beq_iff_eq, ↓reduceIte, ne_eq, not_true_eq_false, not_false_eq_true,
+        Bool.false_eq_true]
+      generalize hr : (delimLoop '/' regexEscapes true fuel []).res text (k + 1) = r at hl
+      have hnb := delimLoop_noBadEscape text '/' regexEscapes fuel [] (k + 1)
+      rw [hr] at hnb
+      obtain ⟨⟨b, e⟩, k1⟩ := r
+      have e1 : ¬ ('/' : Char) = eofRune := by decide
+      simp only [curAt_prev] at hl
+      obtain ⟨hl1, hl2⟩ := hl
+      simp only [hl1, hl2, e1, ↓reduceIte, resK_mk]
+      cases e with
+      | none => simp [delimOpt, res_pure]
+      | some e =>
+        cases e with
+        | badEscape => exact absurd rfl hnb
+        | eofErr => simp [delimOpt, res_pure]
+        | other => simp [delimOpt, res_pure]
+    · simp [h1, h2, resK_mk, res_pure]
+
+
+/-! ## call sequences -/
+
+/-- The pure-cursor reading of a call sequence: `Scan` / `ScanRegex` are `scan` / `scanRegex` of
+`Model/Scanner.lean`; `peekRune` looks at the next rune (and swallows an `eof`, which it does not
+push back); `peekComment` looks at the next two runes. -/
+def pureCalls : List Call → Cursor → List Out
+  | [], _ => []
+  | .scan :: cs, c => .tok (scan c).1 :: pureCalls cs (scan c).2
+  | .scanRegex :: cs, c => .tok (scanRegex c).1 :: pureCalls cs (scanRegex c).2
+  | .peekRune :: cs, c => .rune c.peek :: pureCalls cs c.eatEof
+  | .peekComment :: cs, c =>
+    .bool ((c.peek == '-' && c.read.2.peek == '-') || (c.peek == '/' && c.read.2.peek == '*')) ::
+      pureCalls cs c
+
+theorem opCalls_eq (text : List Char) (fuel : Nat) (h : L text < fuel) (calls : List Call) :
+    ∀ k, ((opCalls fuel calls).res text k).1 = pureCalls calls (curAt text k) := by
+  induction calls with
+  | nil => intro k; rfl
+  | cons c cs ih =>
+    intro k
+    cases c with
+    | scan =>
+      have := opScan_eq text fuel k h
+      simp only [opCalls, opCall, res_bind, pureCalls, this]
+      generalize (opScan fuel).res text k = r
+      obtain ⟨lx, k1⟩ := r
+      simp only [resK_mk, res_pure, res_bind, resK, ih]
+    | scanRegex =>
+      have := opScanRegex_eq text fuel k h
+      simp only [opCalls, opCall, res_bind, pureCalls, this]
+      generalize (opScanRegex fuel).res text k = r
+      obtain ⟨lx, k1⟩ := r
+      simp only [resK_mk, res_pure, res_bind, resK, ih]
+    | peekRune =>
+      simp only [opCalls, opCall, opPeekRune, res_bind, res_readRune, resK_mk, res_ite, pureCalls,
+        curAt_peek, curAt_eatEof]
+      by_cases he : (streamAt text k).1 = eofRune
+      · simp [he, res_pure, resK, res_bind, ih]
+      · simp [he, res_pure, resK, res_bind, res_unreadRune, ih]
+    | peekComment =>
+      simp only [opCalls, opCall, opPeekComment, res_bind, res_rd, res_unrd, resK_mk, res_pure, pureCalls,
+        curAt_peek, curAt_read, resK, ih, Nat.add_sub_cancel]
+
 end InfluxQL.ScanOps
 
